@@ -66,9 +66,42 @@ class Block:
         return f"pairs={sorted(self.pairs)} hs={self.hs} rns={self.rns}"
 
 
+def _scanned_rows(t: T, memo=None) -> T:
+    """the scanned element written one way:  (xs_a, xs_b)-element [k] is the element of xs_k, and table[i] with i the
+    element of arange(table.shape[0]) is the element of table"""
+    if memo is None:
+        memo = {}
+    if not isinstance(t, T) or not t.args:
+        return t
+    if t.uid in memo:
+        return memo[t.uid]
+    args = tuple(_scanned_rows(a, memo) if isinstance(a, T) else a for a in t.args)
+    r = t if all(x is y for x, y in zip(args, t.args)) else (getitem(*args) if t.op == "getitem" else mk(t.op, *args))
+    if r.op == "getitem":
+        b, i = r.args
+        if b.op == "scan_x" and b.args[0].op in ("tuple", "list") and i.op == "const" and type(i.args[0]) is int and \
+                0 <= i.args[0] < len(b.args[0].args):
+            r = mk("scan_x", b.args[0].args[i.args[0]], *b.args[1:])
+        elif i.op == "scan_x" and array_fn(i.args[0]) == "arange" and len(call_parts(i.args[0])[1]) == 1 and \
+                call_parts(i.args[0])[1][0] is getitem(mk("attr", b, "shape"), const(0)):
+            r = mk("scan_x", b, *i.args[1:])
+    memo[t.uid] = r
+    return r
+
+
+def _trip_count(xs: T) -> T:
+    """number of steps of a scan over xs: n for arange(n), the leading extent otherwise; of the first member for a tuple"""
+    xs = strip_wrappers(xs)
+    if xs.op in ("tuple", "list") and xs.args:
+        return _trip_count(xs.args[0])
+    if array_fn(xs) == "arange" and len(call_parts(xs)[1]) == 1 and not call_parts(xs)[2]:
+        return strip_wrappers(call_parts(xs)[1][0])
+    return getitem(mk("attr", xs, "shape"), const(0))
+
+
 def _row_canon(t: T) -> T:
     """the site a block scales, written one way: table[x, k] (x the scanned scalar, k a literal column) is table[x][k]"""
-    t = strip_wrappers(t)
+    t = _scanned_rows(strip_wrappers(t))
     if t.op == "getitem" and t.args[1].op == "tuple" and len(t.args[1].args) == 2 and \
             t.args[1].args[1].op == "const" and isinstance(t.args[1].args[1].args[0], int) and t.args[1].args[0].op != "slice":
         return getitem(getitem(t.args[0], t.args[1].args[0]), t.args[1].args[1])
@@ -415,24 +448,79 @@ def scans_of(run_: G.StepRun) -> List[T]:
     return out
 
 
+def _carry_roles(run_: G.StepRun, t: T) -> Dict[str, object]:
+    from ..rules.typestate import Judge
+    roles: Dict[str, object] = {}
+    for e in run_.events:
+        if e.kind != "store" or len(e.data[1]) != 1 or e.data[1][0].op != "const" or not isinstance(e.data[1][0].args[0], str):
+            continue
+        key, v = e.data[1][0].args[0], strip_wrappers(e.data[2])
+        sd = Judge._scan_slot(v)
+        if sd is not None and sd[0] is t:
+            roles.setdefault(key, sd[1])
+        elif v.op in ("list", "tuple") and v.args:
+            sl = [Judge._scan_slot(a) for a in v.args]
+            if all(x is not None and x[0] is t for x in sl):
+                roles.setdefault(key, [x[1] for x in sl])
+    return roles
+
+
+def _carry_view(X: T, roles: Dict[str, object]) -> T:
+    """the tuple / record carry X seen as the walker-state dict its slots are written back to"""
+    out = sym("§view")
+    for key, k in sorted(roles.items()):
+        v = mk("list", *[getitem(X, const(i)) for i in k]) if isinstance(k, list) else getitem(X, const(k))
+        out = mk("setitem", out, const(key), v)
+    return out
+
+
 def analyse_class(ctx, cls: str, fast: bool):
     p = ctx.p
     step = p.lookup_method(cls, "propagate")
     run_ = G.StepRun(p, step, cls)
     scans = scans_of(run_)
     result = []
+    blocks_of = lambda carry_, C_: fast_blocks(run_.ev, carry_, C_) if fast else slow_blocks(run_.ev, carry_, C_)
     for t in scans:
         f, init, xs, length = match_scan(t)
         C = sym("§carry")
         x = mk("scan_x", xs, 0)
-        body = run_.ev.open_closure(f, [C, x], at_call=t)
-        carry = body.args[0] if body.op == "tuple" else body
-        blocks = fast_blocks(run_.ev, carry, C) if fast else slow_blocks(run_.ev, carry, C)
-        result.append((t, init, blocks))
+        if strip_wrappers(init).op in ("record", "tuple", "list"):
+            # the sweep carries a plain tuple / record instead of the walker-state dict: the slots are given their
+            # roles by the statements that write the final carry back (prop_data['overlaps'] = final[k] ...)
+            roles = _carry_roles(run_, t)
+            if not {"walkers", "overlaps", "weights"} <= set(roles):
+                ctx.rep.note(f"{cls}.propagate: the scan at line {getattr(t, 'line', '?')} carries a tuple / record whose "
+                             f"slots are not written back to prop_data['walkers' / 'overlaps' / 'weights'] "
+                             f"(found {sorted(roles)}); its blocks are not decided")
+                continue
+            C0 = mk("scan_carry", init, t.uid)
+            body = run_.ev.open_closure(f, [C0, x], at_call=t)
+            raw = body.args[0] if body.op == "tuple" else body
+            carry, C = _carry_view(raw, roles), _carry_view(C0, roles)
+            fin = getitem(t, const(0))
+            hyp = {}
+            for key, k in roles.items():
+                if isinstance(k, list):
+                    for j_, i_ in enumerate(k):
+                        hyp[getitem(fin, const(i_))] = getitem(getitem(sym(f"§S{len(result)}"), const(key)), const(j_))
+                else:
+                    hyp[getitem(fin, const(k))] = getitem(sym(f"§S{len(result)}"), const(key))
+            # the other keys of the walker state are not carried: after the sweep they are what they were before it
+            for x_ in subterms(run_.result):
+                if x_.op == "getitem" and x_.args[0] is sym("prop_data") and x_.args[1].op == "const" and \
+                        isinstance(x_.args[1].args[0], str) and x_.args[1].args[0] not in roles:
+                    hyp[x_] = getitem(sym(f"§S{len(result)}"), x_.args[1])
+            result.append((t, _carry_view(init, roles), blocks_of(carry, C), hyp))
+            continue
+        else:
+            body = run_.ev.open_closure(f, [C, x], at_call=t)
+            carry = body.args[0] if body.op == "tuple" else body
+        result.append((t, init, blocks_of(carry, C), {getitem(t, const(0)): sym(f"§S{len(result)}")}))
     # random sources are named by their order of first use (their def-use terms differ between the
     # fast and the slow class because they hang off different scan results)
     order: Dict[str, int] = {}
-    for _, _, blocks in result:
+    for _, _, blocks, _ in result:
         for b in blocks:
             src, _, col = b.rns.partition("#")
             if src not in order:
@@ -862,7 +950,7 @@ def run(ctx):
         frun, fstep, fres = analyse_class(ctx, P + fcls, True)
         srun, sstep, sres = analyse_class(ctx, P + scls, False)
         # PAIR-2 inside the fast blocks
-        for si, (t, init, blocks) in enumerate(fres):
+        for si, (t, init, blocks, _h) in enumerate(fres):
             for bi, b in enumerate(blocks):
                 n_blocks += 1
                 truncated = truncated or bool(b.problems)
@@ -873,7 +961,7 @@ def run(ctx):
                        "rns < a0/(a0+a1)" if b.prob_field0 else "the comparison uses another field's probability", fstep)
                 ctx.ob("PAIR-2", f"{tag}: the weight is multiplied by the sum of this block's two probabilities",
                        b.norm_ok, "", fstep)
-        for si, (t, init, blocks) in enumerate(sres):
+        for si, (t, init, blocks, _h) in enumerate(sres):
             for bi, b in enumerate(blocks):
                 n_blocks += 1
                 truncated = truncated or bool(b.problems)
@@ -887,7 +975,7 @@ def run(ctx):
         # SIB-1: same number of scans, same block sequences
         same_n = len(fres) == len(sres)
         ctx.ob("SIB-1", f"{fcls} / {scls}: same number of update scans", same_n, f"{len(fres)} vs {len(sres)}", fstep)
-        for si, ((tf, initf, bf), (tsl, inits, bs)) in enumerate(zip(fres, sres)):
+        for si, ((tf, initf, bf, _hf), (tsl, inits, bs, _hs)) in enumerate(zip(fres, sres)):
             kf = [b.key() for b in bf]
             ks = [b.key() for b in bs]
             if not kf or not ks:
@@ -898,15 +986,17 @@ def run(ctx):
                    f"column) blocks", kf == ks, f"fast {bf}" + ("" if kf == ks else f"  vs slow {bs}"), fstep)
             # scanned index range
             xf, xs_ = match_scan(tf)[2], match_scan(tsl)[2]
-            ctx.ob("SIB-1", f"{fcls} / {scls}: scan #{si} runs over the same sites / neighbour pairs", xf is xs_,
+            ctx.ob("SIB-1", f"{fcls} / {scls}: scan #{si} runs over the same sites / neighbour pairs",
+                   _trip_count(xf) is _trip_count(xs_),
                    show(xf, maxdepth=3)[:60], fstep)
             # state entering the scan: identical def-use terms for walkers / weights / overlaps
             hyp_f, hyp_s = {}, {}
-            if si > 0:
-                hyp_f[getitem(fres[si - 1][0], const(0))] = sym("§S")
-                hyp_s[getitem(sres[si - 1][0], const(0))] = sym("§S")
+            for sj in range(si):
+                hyp_f.update(fres[sj][3])
+                hyp_s.update(sres[sj][3])
             gf = GVN(frun.ev, hyp_f)
             gs = GVN(srun.ev, hyp_s)
+            gf.two_spin_walkers = gs.two_spin_walkers = True
             gs.atoms, gs.atom_keys = gf.atoms, gf.atom_keys
             for k in ("walkers", "weights", "overlaps"):
                 a = gf.number(getitem(initf, const(k)))
@@ -916,10 +1006,14 @@ def run(ctx):
                        f"fast {gf.describe(a)[:120]} vs slow {gf.describe(b_)[:120]}", fstep)
         # epilogue
         if fres and sres:
-            hyp_f = {getitem(fres[-1][0], const(0)): sym("§S")}
-            hyp_s = {getitem(sres[-1][0], const(0)): sym("§S")}
+            hyp_f, hyp_s = {}, {}
+            for r_ in fres:
+                hyp_f.update(r_[3])
+            for r_ in sres:
+                hyp_s.update(r_[3])
             gf = GVN(frun.ev, hyp_f)
             gs = GVN(srun.ev, hyp_s)
+            gf.two_spin_walkers = gs.two_spin_walkers = True
             gs.atoms, gs.atom_keys = gf.atoms, gf.atom_keys
             for k in ("walkers", "weights", "overlaps", "pop_control_ene_shift"):
                 a = gf.number(getitem(frun.result, const(k)))
